@@ -281,6 +281,35 @@ def gen_matrix(rng, n, kind):
         else:
             for r in range(n): A[r][i] = A[r][j]
         return A
+    if kind == "rank-deficient-combo":
+        # exactly singular small-integer matrices WITHOUT a zero / repeated / 2^k-multiple row or column: a row (or column) is a
+        # combination of two or three others with coefficients +-1, +-2, +-3, or the rows are in arithmetic progression (1 2 3 / 4 5 6 /
+        # 7 8 9).  Only the exact Laplace sum tells that they are singular: the elimination works with multipliers such as 4/7 and
+        # leaves a rounding residue where the pivot should vanish
+        if n == 1: return [[0.0]]
+        if n == 2: return gen_matrix(rng, n, "rank-deficient")
+        for _ in range(200):
+            A = [[float(rng.randint(-3, 3)) for _ in range(n)] for _ in range(n)]
+            w = rng.random()
+            if w < 0.2:
+                a0 = [float(rng.randint(-3, 3)) for _ in range(n)]; dlt = [float(rng.choice([-1, 1, 1, 2])) for _ in range(n)]
+                if rng.random() < 0.5: dlt = [dlt[0]] * n; a0 = [a0[0] + rng.choice([1, 2]) * c for c in range(n)]
+                if n <= 4: A = [[a0[c] + r * dlt[c] for c in range(n)] for r in range(n)]
+                else:
+                    for r in range(3): A[r] = [a0[c] + r * dlt[c] for c in range(n)]
+            else:
+                i = rng.randrange(n); others = rng.sample([x for x in range(n) if x != i], min(n - 1, rng.choice([2, 2, 3])))
+                cf = [float(rng.choice([-3, -2, -1, 1, 2, 3])) for _ in others]
+                if w < 0.7: A[i] = [sum(c * A[k][col] for c, k in zip(cf, others)) for col in range(n)]
+                else:
+                    for r in range(n): A[r][i] = sum(c * A[r][k] for c, k in zip(cf, others))
+            if rng.random() < 0.5: rng.shuffle(A)
+            if not small_int(A) or not ctx_of(A).singular: continue
+            if any(all(x == 0 for x in r) for r in A) or any(all(A[r][c] == 0 for r in range(n)) for c in range(n)): continue
+            At = [[A[r][c] for r in range(n)] for c in range(n)]
+            if any(pow2_multiple(B[a], B[b]) for B in (A, At) for a in range(n) for b in range(a + 1, n)): continue
+            return A
+        return gen_matrix(rng, n, "rank-deficient")
     if kind == "rank-deficient-real":
         # exactly singular as doubles although no entry is an integer or a short dyadic number: the Laplace sum of such a
         # matrix is a rounding residue, not 0.  Structures: equal rows, a row +-2^k times another, a zero row / column
@@ -321,6 +350,34 @@ def gen_matrix(rng, n, kind):
         d1 = [10 ** (-g1 * i / max(1, n - 1)) for i in range(n)]; d2 = [10 ** (-g2 * i / max(1, n - 1)) for i in range(n)]
         rng.shuffle(d1); rng.shuffle(d2)
         return [[d1[i] * Q[i][j] * d2[j] for j in range(n)] for i in range(n)]
+    if kind == "growth":
+        # the matrices on which the CHOICE of the pivot row decides the accuracy (Wilkinson's growth-factor shape): entries of
+        # magnitude ~1 and equal sign below the diagonal, a last column of the opposite sign, and a diagonal that is r times
+        # the largest candidate below it, r on a ladder from 1 down to 1e-16 (and just above / below each rung).  With the
+        # largest candidate as pivot all multipliers are <= 1 and the elements grow by at most 2 per step; keeping a diagonal
+        # entry of relative size r compounds multipliers 1/r over the n-1 steps.  Entries are not dyadic (no exact arithmetic).
+        # Variants: one r for all columns or one per column, the transpose, rows / columns with flipped signs, a sparse fill
+        # above the diagonal, an overall factor.
+        sg = rng.choice([-1.0, 1.0]); f = 10 ** rng.uniform(-2, 2)
+        jit = lambda: 1 + rng.choice([1e-4, 1e-3, 1e-2]) * rng.uniform(-1, 1)
+        common = rng.choice(PIVOT_RATIOS) if rng.random() < 0.6 else None
+        fill = rng.choice([0.0, 0.0, 0.01, 0.3])
+        A = [[0.0] * n for _ in range(n)]
+        for i in range(n):
+            for j in range(n):
+                if j < i: A[i][j] = -sg * jit()
+                elif j == n - 1 and i < n - 1: A[i][j] = sg * jit() * rng.choice([1.0, 1.0, rng.uniform(0.3, 1)])
+                elif j > i and rng.random() < 0.5: A[i][j] = fill * rng.uniform(-1, 1)
+        for i in range(n):
+            r = (common if common is not None else rng.choice(PIVOT_RATIOS)) * (1 + rng.choice([0.0, 1e-3, -1e-3, 1e-2, -1e-2, 0.05]) * rng.random())
+            below = max([abs(A[k][i]) for k in range(i + 1, n)] or [1.0])
+            A[i][i] = sg * rng.choice([1.0, 1.0, 1.0, -1.0]) * r * below
+        w = rng.random()
+        if w < 0.25: A = [[A[j][i] for j in range(n)] for i in range(n)]
+        elif w < 0.4:
+            rs = [rng.choice([-1.0, 1.0]) for _ in range(n)]; cs_ = [rng.choice([-1.0, 1.0]) for _ in range(n)]
+            A = [[rs[i] * A[i][j] * cs_[j] for j in range(n)] for i in range(n)]
+        return [[f * x for x in row] for row in A]
     if kind == "hilbert":
         m = min(n, 6); s = rng.randint(1, 3)
         return [[1.0 / (i + j + s) for j in range(m)] for i in range(m)]
@@ -330,8 +387,11 @@ def gen_matrix(rng, n, kind):
     raise ValueError(kind)
 
 
+# relative size of a diagonal entry to the largest pivot candidate below it ("growth" family)
+PIVOT_RATIOS = [1.0, 0.99, 0.9, 0.75, 0.6, 0.5, 0.4, 0.3, 0.25, 0.2, 0.15, 0.125, 0.11, 0.101, 0.1, 0.099, 0.09, 0.05, 0.02, 0.01, 1e-3, 1e-4, 1e-6,
+                1e-8, 1e-10, 1e-13, 1e-16]
 KINDS = ["dense", "dense", "dense-int", "perm", "signed-perm", "scaled-perm", "zero-minor", "zero-minor", "tiny-minor", "upper", "lower",
-         "tri-int", "diag", "symmetric", "rank-deficient", "rank-deficient", "rank-deficient-real", "rank-deficient-real", "near-singular",
+         "tri-int", "diag", "symmetric", "rank-deficient", "rank-deficient", "rank-deficient-combo", "rank-deficient-real", "rank-deficient-real", "near-singular",
          "graded", "graded", "graded", "hilbert", "vandermonde"]
 # the families that are also run at extreme scales (entries times 2^k): the property does not depend on the unit of the entries
 SCALED_KINDS = ["dense", "dense-int", "signed-perm", "scaled-perm", "diag", "symmetric", "upper", "zero-minor", "graded", "rank-deficient",
@@ -372,9 +432,14 @@ def det_tol(A):
     return (1e-9, c.fl(c.bound))
 
 
-# ---- call histories on one object
+# ---- call histories on one object (`seq`: every query also put to a fresh object) and on several objects (`hist`: nothing but
+# the calls of the history runs in the process, so that state kept OUTSIDE the objects - file statics, address-keyed memos -
+# is not disturbed by the probe; the reference there is the model and the clauses)
 QUERIES = ["det", "det", "invertible", "inverse", "orthogonal", "copydet", "transdet", "subdet"]
+PURE_QUERIES = QUERIES + ["invertible", "inverse", "copyinvertible", "copyinverse"]
 UPDATES = ["add", "add", "sub", "sub", "set", "swap", "assignm", "assign", "resize", "delrow+delcol", "add-singular", "add-regular", "add-zero"]
+QUERY_ALIAS = {"copyinvertible": "invertible", "copyinverse": "inverse"}
+UPDATE_WORDS = ("add", "sub", "set", "swap", "assignm", "renew", "assign", "resize", "delrow", "delcol")
 
 
 def sim_update(A, st):
@@ -393,7 +458,7 @@ def sim_update(A, st):
         i, j = st[1:]
         if i >= m or j >= m: return None
         R = [list(r) for r in A]; R[i], R[j] = R[j], R[i]; return R
-    if op == "assignm": return [list(r) for r in st[1]]
+    if op in ("assignm", "renew"): return [list(r) for r in st[1]]
     if op == "assign": return [[st[3]] * st[2] for _ in range(st[1])]
     if op == "resize":
         r, c = st[1:]
@@ -409,7 +474,7 @@ def sim_update(A, st):
 
 def step_text(st):
     op = st[0]
-    if op in ("add", "sub", "assignm"): return f"{op} {mtab(st[1])}"
+    if op in ("add", "sub", "assignm", "renew"): return f"{op} {mtab(st[1])}"
     if op in ("set", "assign"): return f"{op} {st[1]} {st[2]} {hx(st[3])}"
     return " ".join([op] + [str(x) for x in st[1:]])
 
@@ -423,78 +488,223 @@ def safe_for_inverse(A):
     return (not c.singular) and abs(c.ds) > Fraction(1e3 * c.relb)
 
 
-def gen_seq(rng, n, kind):
-    """one object, 3..9 calls: queries interleaved with every kind of update; the generator follows the entries so that only
-    the last call may be one that has to terminate the process"""
-    A = gen_matrix(rng, n, kind); n = len(A)
-    cur = [list(r) for r in A]; steps = []
-    L = rng.randint(3, 9)
-    intish = small_int(A)
-    V = (lambda: float(rng.randint(-5, 5))) if intish else (lambda: rng.choice([-1, 1]) * rng.uniform(0.1, 1) * 10 ** rng.uniform(-1, 1))
-    def new_mat(m, sing=None):
+class Obj:
+    """the call history of one object under construction: the generator follows the entries (`cur`) so that only the last
+    call of a history may be one that has to terminate the process.  pure = the history is run without fresh-object probes
+    (`hist`), where the queries on a copy and the re-construction in place are available too"""
+    def __init__(s, rng, n, kind, pure=False, A=None):
+        s.rng = rng; s.kind = kind; s.pure = pure
+        s.A = gen_matrix(rng, n, kind) if A is None else A
+        s.n = len(s.A); s.cur = [list(r) for r in s.A]; s.steps = []
+        s.intish = small_int(s.A)
+
+    def V(s):
+        rng = s.rng
+        return float(rng.randint(-5, 5)) if s.intish else rng.choice([-1, 1]) * rng.uniform(0.1, 1) * 10 ** rng.uniform(-1, 1)
+
+    def new_mat(s, m, sing=None):
+        rng = s.rng
         while True:
-            B = gen_matrix(rng, m, "dense-int" if intish else "dense") if sing is None else gen_matrix(rng, m, "rank-deficient" if sing else "dense-int")
+            B = gen_matrix(rng, m, "dense-int" if s.intish else "dense") if sing is None else gen_matrix(rng, m, rng.choice(["rank-deficient", "rank-deficient-combo"]) if sing else "dense-int")
             if sing is None or ctx_of(B).singular == sing: return B
-    def query():
-        q = rng.choice(QUERIES)
+
+    def push(s, st):
+        if st[0] in UPDATE_WORDS: s.cur = sim_update(s.cur, st)
+        s.steps.append(st)
+
+    def query(s, among=None):
+        rng = s.rng; cur = s.cur
+        q = rng.choice(among or (PURE_QUERIES if s.pure else QUERIES))
         sq = is_square(cur)
-        if q == "inverse" and not safe_for_inverse(cur): q = "invertible"
+        if QUERY_ALIAS.get(q, q) == "inverse" and not safe_for_inverse(cur): q = "copyinvertible" if q.startswith("copy") else "invertible"
         if q == "orthogonal" and not safe_for_inverse(cur): q = "det"
         if q == "subdet":
             if sq and len(cur) >= 2: return ("subdet", rng.randrange(len(cur)), rng.randrange(len(cur)))
             q = "det"
         if q in ("det", "copydet", "transdet") and not sq: q = "invertible"
         return (q,)
-    def update():
+
+    def replace(s, B):
+        """the object gets the entries B wholesale: copy assignment, or (pure) a new object in the same storage"""
+        return [("renew" if s.pure and s.rng.random() < 0.4 else "assignm", B)]
+
+    def update(s):
+        rng = s.rng; cur = s.cur; n = s.n
         u = rng.choice(UPDATES); m = len(cur); nc = len(cur[0]) if cur else 0
-        if m == 0 or nc == 0 or m != nc: return [("assignm", new_mat(max(1, n)))]
-        if u in ("add", "sub"): return [(u, new_mat(m))]
+        if m == 0 or nc == 0 or m != nc: return s.replace(s.new_mat(max(1, n)))
+        if u in ("add", "sub"): return [(u, s.new_mat(m))]
         if u == "add-zero": return [(rng.choice(["add", "sub"]), [[0.0] * m for _ in range(m)])]
         if u in ("add-singular", "add-regular"):
             # the entries become a prescribed singular / regular integer matrix: B = target - current, exact for small integers
-            T = new_mat(m, sing=(u == "add-singular"))
+            T = s.new_mat(m, sing=(u == "add-singular"))
             if small_int(cur): return [("add", [[t - x for t, x in zip(rt, rx)] for rt, rx in zip(T, cur)])]
-            return [("assignm", T)]
-        if u == "set": return [("set", rng.randrange(m), rng.randrange(m), V())]
+            return s.replace(T)
+        if u == "set": return [("set", rng.randrange(m), rng.randrange(m), s.V())]
         if u == "swap": return [("swap", rng.randrange(m), rng.randrange(m))]
-        if u == "assignm": return [("assignm", new_mat(rng.choice([m, m, max(1, m - 1), min(7, m + 1)])))]
+        if u == "assignm": return s.replace(s.new_mat(rng.choice([m, m, max(1, m - 1), min(7, m + 1)])))
         if u == "assign":
-            if rng.random() < 0.5: return [("assign", m, m, V())] + [("set", i, i, V()) for i in range(m)]
-            return [("assign", m, m, V()), ("add", new_mat(m))]
+            if rng.random() < 0.5: return [("assign", m, m, s.V())] + [("set", i, i, s.V()) for i in range(m)]
+            return [("assign", m, m, s.V()), ("add", s.new_mat(m))]
         if u == "resize":
             if m < 6 and rng.random() < 0.6:
                 w = rng.randrange(3)      # the new row and column are zero: leave them, or fill through operator[] / through +=
-                return [("resize", m + 1, m + 1)] + ([("set", m, m, V())] if w == 0 else [("add", new_mat(m + 1))] if w == 1 else [])
+                return [("resize", m + 1, m + 1)] + ([("set", m, m, s.V())] if w == 0 else [("add", s.new_mat(m + 1))] if w == 1 else [])
             if m > 1: return [("resize", m - 1, m - 1)]
             return [("resize", m + 1, m + 1)]
         if u == "delrow+delcol":
             if m > 1:
                 a, b = ("delrow", rng.randrange(m)), ("delcol", rng.randrange(m))
                 return [a, b] if rng.random() < 0.5 else [b, a]
-            return [("set", 0, 0, V())]
+            return [("set", 0, 0, s.V())]
         raise ValueError(u)
-    # first a query (fills whatever the object may remember), then update / query alternation with repeats
-    steps.append(query())
-    while len(steps) < L:
-        if rng.random() < 0.55:
-            for st in update():
-                cur = sim_update(cur, st); steps.append(st)
-            steps.append(query())
-            if rng.random() < 0.3: steps.append(steps[-1])          # the same query again
-        else:
-            steps.append(query())
-    tags = ["seq", kind, f"n={n}"]
-    r = rng.random()
-    if r < 0.12:          # a last call that must (or may) terminate: Inverse of what has become singular / non-square, Determinant of non-square
+
+    def random_history(s, L):
+        """first a query (fills whatever may be remembered), then update / query alternation with repeats"""
+        rng = s.rng
+        s.push(s.query())
+        while len(s.steps) < L:
+            if rng.random() < 0.55:
+                for st in s.update(): s.push(st)
+                s.push(s.query())
+                if rng.random() < 0.3: s.push(s.steps[-1])          # the same query again
+            else:
+                s.push(s.query())
+
+    def terminal(s):
+        """a last call that must (or may) terminate: Inverse of what has become singular / non-square, Determinant of non-square"""
+        rng = s.rng; cur = s.cur
         w = rng.randrange(4)
         if w == 0 and is_square(cur) and small_int(cur) and len(cur) >= 2:
-            T = new_mat(len(cur), sing=True)
-            steps.append(("add", [[t - x for t, x in zip(rt, rx)] for rt, rx in zip(T, cur)])); steps.append(("inverse",))
-        elif w == 1 and len(cur) >= 2: steps.append(("delrow", 0)); steps.append((rng.choice(["det", "inverse"]),))
-        elif w == 2: steps.append(("resize", len(cur) + 1, len(cur))); steps.append((rng.choice(["det", "inverse", "invertible"]),))
-        else: steps.append(("inverse",))
-        tags.append("last-call-may-exit")
-    return Case(f"seq {mtab(A)} {len(steps)} " + " ".join(step_text(st) for st in steps), tuple(tags))
+            T = s.new_mat(len(cur), sing=True)
+            s.push(("add", [[t - x for t, x in zip(rt, rx)] for rt, rx in zip(T, cur)])); s.push(("inverse",))
+        elif w == 1 and len(cur) >= 2: s.push(("delrow", 0)); s.push((rng.choice(["det", "inverse"]),))
+        elif w == 2: s.push(("resize", len(cur) + 1, len(cur))); s.push((rng.choice(["det", "inverse", "invertible"]),))
+        else: s.push(("inverse",))
+
+    # ---- regular <-> singular by in-place updates
+    def route_to(s, T):
+        """update steps after which the entries are T (same shape as the current, square entries), by every in-place route"""
+        rng = s.rng; cur = s.cur; m = len(cur)
+        diff = [(i, j) for i in range(m) for j in range(m) if cur[i][j] != T[i][j]]
+        routes = ["replace", "replace"]
+        if len(diff) <= 2: routes += ["set"] * 6
+        if small_int(cur) and small_int(T): routes += ["add", "sub", "assign+add"]
+        w = rng.choice(routes)
+        if w == "set": return [("set", i, j, T[i][j]) for i, j in diff]
+        if w == "add": return [("add", [[t - x for t, x in zip(rt, rx)] for rt, rx in zip(T, cur)])]
+        if w == "sub": return [("sub", [[x - t for t, x in zip(rt, rx)] for rt, rx in zip(T, cur)])]
+        if w == "assign+add":
+            v = float(rng.randint(-2, 2))
+            return [("assign", m, m, v), ("add", [[t - v for t in rt] for rt in T])]
+        return s.replace(T)
+
+    def flip_chain(s, T, flips):
+        """T = an exactly singular matrix; the object (regular at the start: T with one entry changed, or unrelated) is asked,
+        made equal to T in place, asked again, made regular again in place, ...: whatever an implementation remembers from
+        the answer for the earlier entries is wrong for the new ones.  Only the last call may be entitled to terminate."""
+        rng = s.rng
+        reg_q = ["invertible", "invertible", "inverse", "orthogonal", "det", "copydet", "transdet"] + (["copyinvertible", "copyinverse"] if s.pure else [])
+        sing_q = ["inverse", "inverse", "inverse", "invertible", "det", "orthogonal"] + (["copyinverse", "copyinvertible"] if s.pure else [])
+        for f in range(flips):
+            for _ in range(rng.choice([1, 1, 2])): s.push(s.query(reg_q))
+            for st in s.route_to(T): s.push(st)
+            q = rng.choice(sing_q)
+            s.push((q,))
+            if QUERY_ALIAS.get(q, q) == "inverse": return True          # this call has to terminate (or may, K-C05-1)
+            R = regular_near(rng, T, s.V)
+            for st in s.route_to(R): s.push(st)
+        s.push(s.query(reg_q))
+        return False
+
+
+def regular_near(rng, T, V):
+    """T with one entry changed so that the matrix is safely regular (else an unrelated regular matrix of the same size)"""
+    m = len(T)
+    for _ in range(12):
+        R = [list(r) for r in T]; i, j = rng.randrange(m), rng.randrange(m); v = V()
+        if v == R[i][j]: continue
+        R[i][j] = v
+        if safe_for_inverse(R): return R
+    while True:
+        R = gen_matrix(rng, m, "dense-int" if small_int(T) else "dense")
+        if safe_for_inverse(R): return R
+
+
+def singular_target(rng, n):
+    """(T, V): an exactly singular n x n matrix (n >= 2) - small integers of every structure (dependent rows whose elimination
+    leaves a rounding residue instead of an exact zero included), the same times 2^k, or generic entries - and a source of
+    further entries of the same sort"""
+    w = rng.random()
+    while True:
+        T = gen_matrix(rng, n, "rank-deficient-real" if w < 0.2 else rng.choice(["rank-deficient", "rank-deficient-combo", "rank-deficient-combo"]))
+        if ctx_of(T).singular: break
+    if w < 0.2: return T, (lambda: rng.choice([-1, 1]) * rng.uniform(0.1, 1) * 10 ** rng.uniform(-1, 1))
+    if w < 0.3:
+        k = rng.randint(-40, 40)
+        return scale_mat(T, k), (lambda: math.ldexp(float(rng.randint(-5, 5)), k))
+    return T, (lambda: float(rng.randint(-5, 5)))
+
+
+def seq_case(o, tags):
+    return Case(f"seq {mtab(o.A)} {len(o.steps)} " + " ".join(step_text(st) for st in o.steps), tuple(tags))
+
+
+def hist_case(objs, order, tags):
+    """order = list of (object index, step)"""
+    return Case(f"hist {len(objs)} " + " ".join(mtab(o.A) for o in objs) + f" {len(order)} " + " ".join(f"{k} {step_text(st)}" for k, st in order), tuple(tags))
+
+
+def interleave(rng, lists, weights):
+    """merge the step lists keeping the order inside each; -> [(index, step)]"""
+    pos = [0] * len(lists); out = []
+    while True:
+        live = [k for k in range(len(lists)) if pos[k] < len(lists[k])]
+        if not live: return out
+        k = rng.choices(live, [weights[x] for x in live])[0]
+        out.append((k, lists[k][pos[k]])); pos[k] += 1
+
+
+def gen_seq(rng, n, kind):
+    """one object, 3..9 calls: queries interleaved with every kind of update, every query also put to a fresh object"""
+    o = Obj(rng, n, kind); o.random_history(rng.randint(3, 9))
+    tags = ["seq", kind, f"n={o.n}"]
+    if rng.random() < 0.12: o.terminal(); tags.append("last-call-may-exit")
+    return seq_case(o, tags)
+
+
+SEQ_KINDS = ["dense", "dense-int", "dense-int", "symmetric", "upper", "signed-perm", "rank-deficient", "zero-minor", "graded"]
+
+
+def gen_hist(rng, n):
+    """1..3 objects (sizes around n), random histories interleaved, nothing else called in the process"""
+    m = rng.choice([1, 1, 2, 2, 3])
+    objs = [Obj(rng, n if k == 0 else rng.randint(1, 6), rng.choice(SEQ_KINDS), pure=True) for k in range(m)]
+    for o in objs: o.random_history(rng.randint(2, 7) if m > 1 else rng.randint(3, 9))
+    order = interleave(rng, [o.steps for o in objs], [1] * m)
+    tags = ["hist", f"objects={m}", f"n={objs[0].n}"]
+    if rng.random() < 0.12:
+        k = rng.randrange(m); o = objs[k]; before = len(o.steps); o.terminal()
+        order += [(k, st) for st in o.steps[before:]]; tags.append("last-call-may-exit")
+    return hist_case(objs, order, tags)
+
+
+def gen_flip(rng, n, pure):
+    """regular <-> singular in place (see Obj.flip_chain), as `seq` (with probes) or as `hist` among 1..3 objects"""
+    n = max(2, n)
+    T, V = singular_target(rng, n)
+    o = Obj(rng, n, "flip", pure=pure, A=regular_near(rng, T, V))
+    o.V = V
+    may_exit = o.flip_chain(T, rng.choice([1, 1, 2, 3]))
+    tags = ["flip", f"n={n}"] + (["last-call-may-exit"] if may_exit else [])
+    if not pure: return seq_case(o, ["seq"] + tags)
+    m = rng.choice([1, 1, 2, 3])
+    objs = [o] + [Obj(rng, rng.randint(1, 5), rng.choice(["dense-int", "dense", "signed-perm"]), pure=True) for _ in range(m - 1)]
+    for x in objs[1:]: x.random_history(rng.randint(1, 4))
+    order = interleave(rng, [x.steps for x in objs], [3] + [1] * (m - 1))
+    if may_exit:          # nothing runs after the call that terminates
+        last = max(i for i, (k, st) in enumerate(order) if k == 0)
+        order = order[:last + 1]
+    return hist_case(objs, order, ["hist", f"objects={m}"] + tags)
 
 
 def generate(rng, tier):
@@ -538,7 +748,19 @@ def generate(rng, tier):
     # call histories on one object
     for n in range(1, 8):
         for _ in range((120 if big else 24) * (2 if 3 <= n <= 5 else 1)):
-            cs.append(gen_seq(rng, n, rng.choice(["dense", "dense-int", "dense-int", "symmetric", "upper", "signed-perm", "rank-deficient", "zero-minor", "graded"])))
+            cs.append(gen_seq(rng, n, rng.choice(SEQ_KINDS)))
+    # call histories on 1..3 objects with nothing else running in the process, and regular <-> singular in place (both forms)
+    for n in range(1, 8):
+        for _ in range((100 if big else 14) * (2 if 3 <= n <= 5 else 1)):
+            cs.append(gen_hist(rng, n))
+            cs.append(gen_flip(rng, n, pure=True))
+            if rng.random() < 0.5: cs.append(gen_flip(rng, n, pure=False))
+    # growth-factor shapes: the accuracy clause where it depends on the pivot choice; the larger sizes carry the weight
+    for n in range(2, 8):
+        for _ in range((12 if big else 2) * (n - 1) * (3 if n >= 6 else 1)):
+            A = gen_matrix(rng, n, "growth")
+            cs.append(inv_case(A, "growth"))
+            if rng.random() < 0.2: cs.append(Case(f"det {mtab(A)}", ("det", "growth", f"n={n}"), tol=det_tol(A)))
     # the witnesses of the defects fixed earlier, and hand-picked pivoting situations
     for A in ([[0.0, 1.0], [1.0, 0.0]], [[1e-20, 1.0], [1.0, 1.0]], [[0.0, 0.0, 1.0], [0.0, 1.0, 0.0], [1.0, 0.0, 0.0]],
               [[1.0, 2.0, 3.0], [2.0, 4.0, 6.0], [1.0, 0.0, 1.0]], [[1.0, 1.0], [1.0, 1.0]], [[0.0]], [[5.0]], [[-0.0]],
@@ -571,7 +793,7 @@ class Rd:
     def table(s): n = s.int(); return [s.list() for _ in range(n)]
     def step(s):
         w = s.word()
-        if w in ("add", "sub", "assignm"): return (w, s.table())
+        if w in ("add", "sub", "assignm", "renew"): return (w, s.table())
         if w in ("set", "assign"): return (w, s.int(), s.int(), s.num())
         if w in ("swap", "resize", "subdet"): return (w, s.int(), s.int())
         if w in ("delrow", "delcol"): return (w, s.int())
@@ -600,7 +822,9 @@ def leading_minor_small(A):
 
 
 def nontrivial(c, io):
-    r = Rd(c.line); A = r.table()
+    r = Rd(c.line)
+    if r.op == "hist": return True
+    A = r.table()
     if any(len(row) != len(A) for row in A): return True
     if r.op in ("det_laws", "seq"): return True
     cx = ctx_of(A)
@@ -668,32 +892,40 @@ def clause_inverse(A, ex, X):
 
 def exit_status(A, q):
     """for the query q on an object with entries A: 'must' terminate, 'may' terminate, or None"""
-    sq = is_square(A)
-    if q[0] in ("det", "copydet", "transdet"): return None if sq else "must"
-    if q[0] == "subdet":
+    sq = is_square(A); q0 = QUERY_ALIAS.get(q[0], q[0])
+    if q0 in ("det", "copydet", "transdet"): return None if sq else "must"
+    if q0 == "subdet":
         if q[1] >= len(A) or q[2] >= (len(A[0]) if A else 0): return "must"
         S = [[x for k, x in enumerate(r) if k != q[2]] for i, r in enumerate(A) if i != q[1]]
         return None if (len(S) == 0 or is_square(S)) and (len(S) > 0 or len(A) == 1) else "must"
-    if q[0] == "invertible": return None
-    if not sq: return "must" if q[0] == "inverse" else None
+    if q0 == "invertible": return None
+    if not sq: return "must" if q0 == "inverse" else None
     c = ctx_of(A)
     if not c.finite: return "may"
-    if q[0] == "inverse":
+    if q0 == "inverse":
         if c.singular: return "must" if structure_exact(A) else "may"
         return "may" if c.near_singular else None
-    if q[0] == "orthogonal": return "may" if (c.singular or c.near_singular) else None
+    if q0 == "orthogonal": return "may" if (c.singular or c.near_singular) else None
     return None
 
 
 def predicates_seq(r, io):
-    out = []
-    def bad(clause, msg): out.append((f"seq:{clause}", msg))
-    A = r.table(); k = r.int(); steps = [r.step() for _ in range(k)]
+    """`seq` (one object, every answer twice: the object's and a fresh object's) and `hist` (several objects, every answer once)"""
+    out = []; op = r.op; probe = op == "seq"
+    def bad(clause, msg): out.append((f"{op}:{clause}", msg))
+    if probe: objs = [r.table()]
+    else:
+        m = r.int(); objs = [r.table() for _ in range(m)]
+    k = r.int(); steps = []
+    for _ in range(k):
+        w = 0 if probe else r.int()
+        steps.append((w, r.step()))
     ex = io.startswith("EXIT"); t = io.split(); p = 0
-    cur = A
-    for idx, st in enumerate(steps):
-        where = f"call {idx + 1} ({st[0]})"
-        if st[0] in ("add", "sub", "set", "swap", "assignm", "assign", "resize", "delrow", "delcol"):
+    for idx, (w, st) in enumerate(steps):
+        where = f"call {idx + 1} ({st[0]})" if probe else f"call {idx + 1} (object {w}: {st[0]})"
+        if w >= len(objs): return out
+        cur = objs[w]
+        if st[0] in UPDATE_WORDS:
             nxt = sim_update(cur, st)
             if nxt is None:
                 if not ex: bad("guard", f"{where}: request outside the shape of the matrix did not terminate with a diagnostic")
@@ -701,7 +933,8 @@ def predicates_seq(r, io):
             if not ex:
                 if p >= len(t) or t[p] != "U": bad("shape", f"{where}: unexpected output"); return out
                 p += 1
-            cur = nxt; continue
+            objs[w] = nxt; continue
+        q0 = QUERY_ALIAS.get(st[0], st[0])
         es = exit_status(cur, st)
         if ex:
             if es: return out          # this call is entitled to terminate the process
@@ -711,30 +944,34 @@ def predicates_seq(r, io):
             bad("non-square" if not sq else "singular", f"{where}: {'non-square' if not sq else 'exactly singular'} matrix: numbers instead of terminating with a diagnostic"); return out
         if p >= len(t): bad("shape", f"{where}: output missing"); return out
         tag = t[p]; p += 1
-        if st[0] in ("det", "copydet", "transdet", "subdet"):
-            if tag != "D" or p + 2 > len(t): bad("shape", f"{where}: unexpected output"); return out
-            a, b = t[p], t[p + 1]; p += 2
+        if q0 in ("det", "copydet", "transdet", "subdet"):
+            if tag != "D" or p + (2 if probe else 1) > len(t): bad("shape", f"{where}: unexpected output"); return out
+            a = t[p]; b = t[p + 1] if probe else a; p += 2 if probe else 1
             if a != b: bad("history", f"{where}: the object with this call history answers {tokf(a)!r}, a new object with the same entries answers {tokf(b)!r}")
             T = cur
-            if st[0] == "transdet": T = [[cur[i][j] for i in range(len(cur))] for j in range(len(cur))]
-            if st[0] == "subdet": T = [[x for kk, x in enumerate(rw) if kk != st[2]] for i, rw in enumerate(cur) if i != st[1]]
+            if q0 == "transdet": T = [[cur[i][j] for i in range(len(cur))] for j in range(len(cur))]
+            if q0 == "subdet": T = [[x for kk, x in enumerate(rw) if kk != st[2]] for i, rw in enumerate(cur) if i != st[1]]
             if len(T) >= 1:
                 for cl, msg in clause_det(T, tokf(a)): bad(cl, f"{where}: {msg}")
-        elif st[0] in ("invertible", "orthogonal"):
-            if tag != "F" or p + 2 > len(t): bad("shape", f"{where}: unexpected output"); return out
-            a, b = t[p], t[p + 1]; p += 2
+        elif q0 in ("invertible", "orthogonal"):
+            if tag != "F" or p + (2 if probe else 1) > len(t): bad("shape", f"{where}: unexpected output"); return out
+            a = t[p]; b = t[p + 1] if probe else a; p += 2 if probe else 1
             if a != b: bad("history", f"{where}: the object with this call history answers {a}, a new object with the same entries answers {b}")
-            if st[0] == "invertible":
+            if q0 == "invertible":
                 if not is_square(cur):
                     if a != "0": bad("non-square", f"{where}: Invertible() of a non-square matrix is not false")
                 else:
                     for cl, msg in clause_invertible(cur, int(a)): bad(cl, f"{where}: {msg}")
-        elif st[0] == "inverse":
+        elif q0 == "inverse":
             if tag != "X": bad("shape", f"{where}: unexpected output"); return out
-            X1, p1 = take_mat(t, p); X2, p2 = take_mat(t, p1)
-            if X1 is None or X2 is None: bad("shape", f"{where}: unexpected output"); return out
-            if t[p:p1] != t[p1:p2]: bad("history", f"{where}: Inverse() of the object with this call history differs from Inverse() of a new object with the same entries")
-            p = p2
+            X1, p1 = take_mat(t, p)
+            if X1 is None: bad("shape", f"{where}: unexpected output"); return out
+            if probe:
+                X2, p2 = take_mat(t, p1)
+                if X2 is None: bad("shape", f"{where}: unexpected output"); return out
+                if t[p:p1] != t[p1:p2]: bad("history", f"{where}: Inverse() of the object with this call history differs from Inverse() of a new object with the same entries")
+                p = p2
+            else: p = p1
             for cl, msg in clause_inverse(cur, False, X1): bad(cl, f"{where}: {msg}")
     if ex:
         # no call of the history was entitled to terminate
@@ -746,7 +983,7 @@ def predicates(c, io):
     if io.startswith(("CRASH", "SANITIZER", "TIMEOUT", "HARNESSERR")): return []
     r = Rd(c.line); op = r.op; out = []
     def bad(clause, msg): out.append((f"{op}:{clause}", msg))
-    if op == "seq": return predicates_seq(r, io)
+    if op in ("seq", "hist"): return predicates_seq(r, io)
     ex = io.startswith("EXIT")
     A = r.table(); m = len(A); square = all(len(row) == m for row in A)
     if not square:
